@@ -51,7 +51,8 @@ func HC02AdapterTWCC() {
 		}
 		fb.PacketChunks = []rtcp.PacketStatusChunk{&rtcp.StatusVectorChunk{Type: rtcp.TypeTCCStatusVectorChunk, SymbolSize: rtcp.TypeTCCSymbolSizeTwoBit, SymbolList: list}}
 	}
-	n := vr.Concretize(nrecv)
+	// as many deltas as received symbols inside the status count (what rtcp.Unmarshal yields), or fewer
+	n := vr.Concretize(vr.NondetInt(0, vr.Concretize(nrecv)))
 	for i := 0; i < n; i++ {
 		fb.RecvDeltas = append(fb.RecvDeltas, &rtcp.RecvDelta{Type: rtcp.TypeTCCPacketReceivedSmallDelta, Delta: int64(vr.NondetInt(0, 255)) * 250})
 	}
